@@ -1144,6 +1144,24 @@ class Exec:
             if isinstance(a, ArrRef):
                 return R(a.arr.len)
             return R(s.slice_len(st, a))
+        if re.search(r'<impl \[T\]>::swap$', c):
+            sl, i, j = args
+            if isinstance(sl, ArrRef):
+                sl = Slice(sl.arr, bv(0), sl.arr.len)
+            ln = sl.end - sl.start
+            inb = z3.And(ULT(i, ln), ULT(j, ln))
+            outs = []
+            if s.feasible(st, inb):
+                s1 = st.clone()
+                s1.pc.append(inb)
+                s1.events.append('swap [%s] <-> [%s]' % (z3.simplify(i), z3.simplify(j)))
+                outs.append((s1, 'ret', UNIT))      # both elements stay live, only their positions change (the ledger tracks states, not values)
+            if s.feasible(st, z3.Not(inb)):
+                s2 = st.clone()
+                s2.pc.append(z3.Not(inb))
+                s2.events.append('slice::swap index out of bounds: panic')
+                outs.append((s2, 'unwind', None))
+            return outs
         if re.search(r'::is_empty$', c) and '<impl [' in c:
             a = args[0]
             return R(a.end == a.start)
